@@ -96,6 +96,13 @@ def gen(rng, knobs):
                 g["limit"] = rng.choice([0, 1, 2, ml - 1, ml, ml + 1, 10 ** 9])
             fs.append(g)
         h.ops.append(["sub", fs])
+    # the relay's own queries (collector passes, look-ups by id, unlimited internal scans) run in between:
+    # their limits are theirs, a client's REQ keeps its own cap whatever ran before it
+    n_add = sum(1 for o in h.ops if o[0] == "add")
+    for _ in range(rng.choice([0, 0, 1, 2, 3])):
+        op = rng.choice([["gc"], ["query", [{"kinds": [1, 7]}]], ["query", [{"authors": [h.pub(0)]}]],
+                         ["get", rng.choice(evs)["id"]] if evs else ["gc"]])
+        h.ops.insert(rng.randint(n_add, len(h.ops)), op)
     return {"backend": backend, "ops": h.ops, "max_limit": ml}
 
 
